@@ -259,6 +259,35 @@ func checkC02(p *Program, r *Report) {
 					}
 				}
 			}
+			if !listLoop {
+				// the same for a list of nodes that reached this function as a parameter or a local (a helper that is handed
+				// `stmt.Cases` or `callExpr.SubExprs`): the loop's own induction variable indexes a slice of parsed nodes
+				for b := range l.Body {
+					for _, in := range b.Instrs {
+						ia, ok := in.(*ssa.IndexAddr)
+						if !ok {
+							continue
+						}
+						st, ok := ia.X.Type().Underlying().(*types.Slice)
+						if !ok {
+							continue
+						}
+						if cat, _ := m.nm.catOf(st.Elem()); cat == "" {
+							continue
+						}
+						var phi *ssa.Phi
+						switch x := ia.Index.(type) {
+						case *ssa.Phi:
+							phi = x
+						case *ssa.BinOp:
+							phi, _ = x.X.(*ssa.Phi)
+						}
+						if phi != nil && phi.Block() == l.Header {
+							listLoop = true
+						}
+					}
+				}
+			}
 			nLoops++
 			inst := fname
 			if li > 0 {
